@@ -126,7 +126,13 @@ class Ctx:
                     b = lo + self._mag
                 if hi is not None and lo is None:
                     a = hi - self._mag
-                v = self.rng.uniform(a, b)
+                u = self.rng.random()
+                if lo is not None and hi is not None and u < 0.3:
+                    # boundary-biased: within 2% of either end of a stated range
+                    w = 0.02 * (b - a)
+                    v = self.rng.uniform(a, a + w) if u < 0.15 else self.rng.uniform(b - w, b)
+                else:
+                    v = self.rng.uniform(a, b)
         v = int(v) if sort == "I" else float(v)
         self.drawn[name] = v
         return v
@@ -218,6 +224,36 @@ class Ctx:
     def same(self, a, b):
         """Same Python object (aliasing / frame clauses)."""
         return a is b
+
+    def atom_args(self, value, fname):
+        """Arguments of every application of the opaque function `fname` (e.g. "arccos") inside a
+        symbolic value - lets a harness state a lemma about what the code feeds to it without
+        copying the code's expression.  Empty in concrete mode."""
+        if self.mode != "symbolic":
+            return []
+        roots = [sym.lift(v) for v in np.asarray(value, dtype=object).flat] if not isinstance(value, SReal) else [value.t]
+        out = []
+        for t in tm.subterms(roots):
+            if (t.op == "fn" and t.args[0] == fname) or (t.op == fname):
+                a = t.args[1] if t.op == "fn" else t.args[0]
+                if all(a is not b.t for b in out):
+                    out.append(SReal(a))
+        return out
+
+    def decisions(self):
+        """Left-hand sides X of the comparisons (X < c, X <= c, ...) decided on this path so far."""
+        if self.mode != "symbolic":
+            return []
+        out = []
+        for c in self._p.pc:
+            if c in self._p.assumed or c in self._p.lemmas:
+                continue
+            d = c.args[0] if c.op == "not" else c
+            if d.op in ("lt", "le", "eq") and d.args[0].sort != "B":
+                for side in d.args:
+                    if not tm.is_const(side) and all(side is not b.t for b in out):
+                        out.append(SReal(side))
+        return out
 
     def observe(self, name, value):
         if self.mode != "symbolic":
